@@ -102,8 +102,8 @@ def run(ctx):
         txt = genmod.module_text(m); env = dict(m["types"])
         b = bundle.Bundle(m["name"], txt, [n for n, _ in m["types"]])
         try: exe = b.build()
-        except Exception:
-            stats["build_failed"] += 1; b.cleanup(); continue
+        except Exception as e:
+            stats["build_failed"] += 1; ctx.module_not_built(m, e); b.cleanup(); continue
         vg = genmod.ValGen(ctx.rng, env)
         enc, meta = [], []
         for n, t in m["types"]:
